@@ -696,3 +696,7 @@ mod tests {
         assert_eq!(writer.fact_cache().unwrap(), FactCacheOffset::new(1234));
     }
 }
+
+#[cfg(kani)]
+#[path = "/verif/kani/aranya-runtime/imp.rs"]
+mod verif_kani;
